@@ -6,7 +6,8 @@
   `.panic site`).  Specification: Spec/TerminalSpec.lean (`Terminal.spec`, over the bytes from the position
   to the end of the file; `Terminal.WF`, `Params.LenOk`, `Params.GroupOk`), Spec/Lang.lean (the documented
   syntax of the literals as languages, `longestPrefix`, `intValue`), Spec/LangString.lean (escape table,
-  string body).  Domain: `InFile f pos` (first byte … end of file), construction parameters in their
+  string body), Spec/Regex.lean (a generic leftmost-first regular-expression semantics and the five
+  expressions as syntax trees whose printed text is the source text).  Domain: `InFile f pos` (first byte … end of file), construction parameters in their
   documented domain (`Terminal.WF`), ANY bytes (no UTF-8 validity, no `< 256` assumption), ANY
   `strconv.ParseFloat` / `time.ParseDuration` answer (`P.floatOk`, `P.durErr` are arbitrary functions), any
   regexp engine whose reported match length lies inside the bytes it was given (`Params.LenOk`; an empty
@@ -15,6 +16,11 @@
   this model, and does not exclude empty matches on a non-empty rest, e.g. `\b`).
 -/
 import ParsleyVerif.Proofs.TerminalValue
+import ParsleyVerif.Proofs.TerminalStrClean
+import ParsleyVerif.Spec.Core
+import ParsleyVerif.Proofs.LangChar
+import ParsleyVerif.Proofs.LangDuration
+import ParsleyVerif.Proofs.Regex
 import ParsleyVerif.Generated.Facts
 namespace PV
 open PV.Text
@@ -126,6 +132,7 @@ theorem c08_node_span (P : Params) (f : File) (t : Terminal) (pos : Nat) (n : No
   have hr := rest_length f pos h
   obtain ⟨h1, h2⟩ := h
   simp only [Ranged] at this
+  obtain ⟨this, _⟩ := this
   omega
 
 /-- an error is positioned between the offset and the end of the file -/
@@ -310,6 +317,10 @@ theorem c08_regexp_at_eof (P : Params) (f : File) (pos id : Nat) (tok name : Byt
   rw [c08_spec P f (.regexp id tok name g) pos h True.intro hl]
   simp only [Terminal.spec, regexpSpec, he, if_true, nf]
 
+/-- parameters and files for the concrete examples (base offset 7) -/
+def nvP : Params := { floatOk := fun l => l.length < 6, durErr := fun l => if l.length < 4 then none else some [63], regexp := fun _ _ => none }
+def nvF (data : Bytes) : File := { name := "t", data := data, offset := 7 }
+
 /-! ## values -/
 
 /-- **parseInt0_spec**: on a lexeme of the integer syntax ParseInt(·, 0, 64) answers `v` iff `v` is the
@@ -358,12 +369,224 @@ theorem c08_escape_x80_two_bytes :
     unquoteString [92, 51, 55, 55, 34] = (some [0xC3, 0xBF], 4) :=
   ⟨rfl, rfl⟩
 
-/-- behaviour of the library kept as it is (reported): inside a double-quoted string a raw line feed ends
-    the body while only plain bytes have been read, but is accepted once an escape or a non-ASCII byte has
-    been read (strconv.UnquoteChar does not refuse it) -/
-theorem c08_string_linefeed_after_escape :
-    unquoteString [97, 10, 34] = (some [97], 1) ∧ unquoteString [97, 92, 116, 10, 34] = (some [97, 9, 10], 4) :=
-  ⟨rfl, rfl⟩
+/-- **no raw line break in a double-quoted body** (string.go as fixed): the bytes the body reader consumes
+    never contain a raw LF or CR, for every input -/
+theorem c08_string_body_no_raw_linebreak (r : Bytes) :
+    ∀ b ∈ r.take (unquoteString r).2, b ≠ 10 ∧ b ≠ 13 := by
+  rw [unquoteString_eq]; exact strBody_clean r
+
+/-- … hence the lexeme of a double-quoted String node (quote, body, quote) never contains a raw LF or CR -/
+theorem c08_string_no_raw_linebreak (P : Params) (f : File) (pos : Nat) (bq : Bool) (n : Node)
+    (h : InFile f pos) (hq : (rest f pos).head? = some 34)
+    (hn : Terminal.parse P f (.string bq) pos = .node n) :
+    ∀ b ∈ (rest f pos).take (n.rpos - pos), b ≠ 10 ∧ b ≠ 13 := by
+  obtain ⟨q, r, hl, _, hc⟩ := (c08_string_node P f pos bq n h).mp hn
+  rw [hl] at hq ⊢
+  simp only [List.head?_cons, Option.some.injEq] at hq
+  subst hq
+  rcases hc with ⟨hd, hnode⟩ | ⟨_, _, v, k, hb, hd, hnode⟩
+  · subst hnode
+    have e : (Node.term (tokOf "STRING") (.str []) pos (pos + 2)).rpos - pos = 2 := by
+      show pos + 2 - pos = 2; omega
+    rw [e]
+    cases r with
+    | nil => simp at hd
+    | cons c t =>
+      simp only [List.head?_cons, Option.some.injEq] at hd
+      subst hd
+      exact clean_cons (by omega) (clean_cons (by omega) clean_nil)
+  · subst hnode
+    have e : (Node.term (tokOf "STRING") (.str (v.getD [])) pos (pos + 1 + k + 1)).rpos - pos = 1 + k + 1 := by
+      show pos + 1 + k + 1 - pos = 1 + k + 1; omega
+    rw [e, c08_quoted_lexeme 34 r k hd]
+    simp only [if_true] at hb
+    have hk : k = (Lang.strBody r).2 := by rw [hb]
+    have hbody : Clean (r.take k) := by rw [hk]; exact strBody_clean r
+    exact clean_cons (by omega) (clean_append hbody (clean_cons (by omega) clean_nil))
+
+/-- the two inputs that used to be accepted: `"a\t<LF>"` and `"é<LF>"` now give `was expecting '"'` at the line break -/
+theorem c08_string_linebreak_examples :
+    Terminal.parse nvP (nvF [34, 97, 92, 116, 10, 34]) (.string false) 7
+      = .err ⟨11, .other (tokOf "was expecting '" ++ [34] ++ tokOf "'")⟩ ∧
+    Terminal.parse nvP (nvF [34, 0xC3, 0xA9, 10, 34]) (.string false) 7
+      = .err ⟨10, .other (tokOf "was expecting '" ++ [34] ++ tokOf "'")⟩ ∧
+    unquoteString [97, 92, 116, 10, 34] = (some [97, 9], 3) ∧ unquoteString [0xC3, 0xA9, 10, 34] = (some [0xC3, 0xA9], 2) :=
+  ⟨rfl, rfl, rfl, rfl⟩
+
+/-! ## the lexeme is the longest literal of the documented syntax
+    `Lang.isInt`, `Lang.isFloat`, `Lang.isDuration`, `Lang.isCharBody`, `Lang.isBackquoteBody` (Spec/Lang.lean) are
+    the documented languages, written without any scanning order; the matchers of the model are the
+    transcription of what Go's leftmost-first engine does on the five expressions. -/
+
+/-- meaning of `longestPrefix L l = some k`: the prefix of length `k` is in `L` and no longer prefix is -/
+theorem c08_longestPrefix_some (L : Bytes → Bool) (l : Bytes) (k : Nat) :
+    Lang.longestPrefix L l = some k ↔
+      k ≤ l.length ∧ L (l.take k) = true ∧ ∀ j, k < j → j ≤ l.length → L (l.take j) = false :=
+  longestPrefix_some
+
+/-- meaning of `longestPrefix L l = none`: no prefix (not even the empty one) is in `L` -/
+theorem c08_longestPrefix_none (L : Bytes → Bool) (l : Bytes) :
+    Lang.longestPrefix L l = none ↔ ∀ j, j ≤ l.length → L (l.take j) = false :=
+  longestPrefix_none
+
+theorem c08_lang_integer (l : Bytes) : integerMatch l = Lang.longestPrefix Lang.isInt l := integerMatch_eq_longest l
+theorem c08_lang_float (l : Bytes) : floatMatch l = Lang.longestPrefix Lang.isFloat l := floatMatch_eq_longest l
+theorem c08_lang_duration (l : Bytes) : durationMatch l = Lang.longestPrefix Lang.isDuration l := durationMatch_eq_longest l
+theorem c08_lang_char (l : Bytes) : charMatch l = Lang.longestPrefix Lang.isCharBody l := charMatch_eq_longest l
+theorem c08_lang_backquote (l : Bytes) : backquoteMatch l = Lang.longestPrefix Lang.isBackquoteBody l :=
+  backquoteMatch_eq_longest l
+
+/-- what leftmost-first gives on the integer expression: after the optional sign the alternatives
+    `[1-9][0-9]*`, `0[xX][0-9a-fA-F]+`, `0[0-7]*` are tried in the order written, the first that matches wins
+    with its greedy (longest) match … -/
+theorem c08_leftmost_first_integer (l : Bytes) :
+    integerMatch l =
+      (Lang.firstSome [Lang.longestPrefix Lang.decimalLit (l.drop (signLen l)),
+        Lang.longestPrefix Lang.hexLit (l.drop (signLen l)),
+        Lang.longestPrefix Lang.octalLit (l.drop (signLen l))]).map (signLen l + ·) :=
+  integerMatch_eq_firstSome l
+
+/-- … and where two alternatives match (`0x1F`: hex 4 bytes, octal 1 byte) the earlier one is the longer one,
+    which is why first-match and longest-match coincide for this expression -/
+theorem c08_hex_before_octal (b : Bytes) (h o : Nat) (hh : Lang.longestPrefix Lang.hexLit b = some h)
+    (ho : Lang.longestPrefix Lang.octalLit b = some o) : o = 1 ∧ o < h :=
+  hex_before_octal b h o hh ho
+
+/-- the duration units: the first unit of `ns|us|µs|μs|ms|s|m|h`, in the order written, that is a prefix
+    (`ms` is listed before `s` and `m`) — and that is also the longest unit that is a prefix -/
+theorem c08_leftmost_first_units (l : Bytes) :
+    unitLen l = (Lang.firstSome (Lang.units.map (fun u => if u <+: l then some u.length else none))).getD 0 ∧
+    Lang.longestPrefix Lang.isUnit l = if unitLen l > 0 then some (unitLen l) else none :=
+  ⟨unitLen_eq_firstSome l, longestPrefix_isUnit l⟩
+
+/-- the char expression: the first alternative, in the order written, that has a prefix of the input in it -/
+theorem c08_leftmost_first_char (l : Bytes) :
+    charMatch l =
+      Lang.firstSome [Lang.longestPrefix Lang.isSimpleEscape l, Lang.longestPrefix (Lang.isHexEscape 120 2) l,
+        Lang.longestPrefix (Lang.isHexEscape 117 4) l, Lang.longestPrefix (Lang.isHexEscape 85 8) l,
+        Lang.longestPrefix Lang.isOneRuneNotQuote l] :=
+  charMatch_eq_firstSome l
+
+/-- the iteration bound of the duration matcher (the input length) is never what stops it -/
+theorem c08_durItems_fuel (f1 f2 : Nat) (l : Bytes) (h1 : l.length ≤ f1) (h2 : l.length ≤ f2) :
+    durItems f1 l = durItems f2 l :=
+  durItems_fuel f1 f2 l h1 h2
+
+/-! ## the matchers are Go's leftmost-first semantics of the five expressions
+    Spec/Regex.lean: `Rx.Re.run` lists ALL match lengths in the order a backtracking (Perl-like) matcher tries
+    them — earlier alternative first, one more iteration first — and `Rx.Re.first` is the first of them, which
+    is what a leftmost-first engine reports for an expression anchored at the start.  The five expressions are
+    surface-syntax trees (`Rx.integerSx` …); classes carry their items as data, from which both the printed
+    text and the byte predicate are computed. -/
+
+/-- the five trees print as the expressions of the Go source (regenerated facts) -/
+theorem c08_regex_source :
+    String.ofList Rx.integerSx.src = Facts.integerRegexp ∧ String.ofList Rx.floatSx.src = Facts.floatRegexp ∧
+    String.ofList Rx.charSx.src = Facts.charRegexp ∧ String.ofList Rx.durationSx.src = Facts.durationRegexp ∧
+    String.ofList Rx.backquoteSx.src = Facts.backquoteRegexp :=
+  ⟨Rx.integerSx_src, Rx.floatSx_src, Rx.charSx_src, Rx.durationSx_src, Rx.backquoteSx_src⟩
+
+theorem c08_regex_integer (l : Bytes) : integerMatch l = Rx.integerRe.first l := integerMatch_eq_first l
+theorem c08_regex_float (l : Bytes) : floatMatch l = Rx.floatRe.first l := floatMatch_eq_first l
+theorem c08_regex_duration (l : Bytes) : durationMatch l = Rx.durationRe.first l := durationMatch_eq_first l
+theorem c08_regex_char (l : Bytes) : charMatch l = Rx.charRe.first l := charMatch_eq_first l
+theorem c08_regex_backquote (l : Bytes) : backquoteMatch l = Rx.backquoteRe.first l := backquoteMatch_eq_first l
+
+/-- the ordered candidate list is exactly the (unordered, fuel-free, textbook) language of the expression … -/
+theorem c08_regex_run_language (r : Rx.Re) (f : Nat) (l : Bytes) (k : Nat) (h : l.length ≤ f) :
+    k ∈ r.run f l ↔ Rx.Re.Matches r l k :=
+  Rx.mem_run_iff r f l k h
+
+/-- … so `first` answers a match, and answers nothing only when nothing matches -/
+theorem c08_regex_first (r : Rx.Re) (l : Bytes) :
+    (∀ k, r.first l = some k → Rx.Re.Matches r l k) ∧ (r.first l = none ↔ ∀ k, ¬ Rx.Re.Matches r l k) :=
+  ⟨fun k h => Rx.first_matches r l k h, Rx.first_none_iff r l⟩
+
+/-- for the five expressions leftmost-first = longest: two independent specifications agree -/
+theorem c08_first_eq_longest (l : Bytes) :
+    Rx.integerRe.first l = Lang.longestPrefix Lang.isInt l ∧ Rx.floatRe.first l = Lang.longestPrefix Lang.isFloat l ∧
+    Rx.durationRe.first l = Lang.longestPrefix Lang.isDuration l ∧ Rx.charRe.first l = Lang.longestPrefix Lang.isCharBody l ∧
+    Rx.backquoteRe.first l = Lang.longestPrefix Lang.isBackquoteBody l :=
+  ⟨by rw [← integerMatch_eq_first, integerMatch_eq_longest], by rw [← floatMatch_eq_first, floatMatch_eq_longest],
+   by rw [← durationMatch_eq_first, durationMatch_eq_longest], by rw [← charMatch_eq_first, charMatch_eq_longest],
+   by rw [← backquoteMatch_eq_first, backquoteMatch_eq_longest]⟩
+
+/-- **Integer, everything together**: a node is returned iff the longest prefix of the rest in the integer
+    syntax is not followed by `.` and its mathematical value fits in 64 bits; the node spans exactly that
+    prefix and carries exactly that value -/
+theorem c08_integer_value (P : Params) (f : File) (pos : Nat) (n : Node) (h : InFile f pos) :
+    Terminal.parse P f .integer pos = .node n ↔
+      ∃ k, Lang.longestPrefix Lang.isInt (rest f pos) = some k ∧ ((rest f pos).drop k).head? ≠ some 46 ∧
+        -(2 : Int) ^ 63 ≤ Lang.intValue ((rest f pos).take k) ∧ Lang.intValue ((rest f pos).take k) < (2 : Int) ^ 63 ∧
+        n = .term (tokOf "INTEGER") (.int (Lang.intValue ((rest f pos).take k))) pos (pos + k) := by
+  rw [c08_integer_node P f pos n h, integerMatch_eq_longest]
+  constructor
+  · rintro ⟨k, v, hm, hd, hp, hn⟩
+    obtain ⟨h1, h2, h3⟩ := (parseInt0_spec _ (longestPrefix_mem hm) v).mp hp
+    subst h1
+    exact ⟨k, hm, hd, h2, h3, hn⟩
+  · rintro ⟨k, hm, hd, h2, h3, hn⟩
+    exact ⟨k, _, hm, hd, (parseInt0_spec _ (longestPrefix_mem hm) _).mpr ⟨rfl, h2, h3⟩, hn⟩
+
+/-- **out of range**: "invalid integer value" at the offset — not a panic — exactly when the literal's
+    mathematical value is outside [−2⁶³, 2⁶³) -/
+theorem c08_integer_out_of_range (P : Params) (f : File) (pos : Nat) (h : InFile f pos) :
+    Terminal.parse P f .integer pos = .err ⟨pos, .other (tokOf "invalid integer value")⟩ ↔
+      ∃ k, Lang.longestPrefix Lang.isInt (rest f pos) = some k ∧ ((rest f pos).drop k).head? ≠ some 46 ∧
+        ¬ (-(2 : Int) ^ 63 ≤ Lang.intValue ((rest f pos).take k) ∧ Lang.intValue ((rest f pos).take k) < (2 : Int) ^ 63) := by
+  rw [c08_integer_err P f pos _ h, integerMatch_eq_longest]
+  have hnone : ∀ k, Lang.longestPrefix Lang.isInt (rest f pos) = some k →
+      (parseInt0 ((rest f pos).take k) = none ↔
+        ¬ (-(2 : Int) ^ 63 ≤ Lang.intValue ((rest f pos).take k) ∧ Lang.intValue ((rest f pos).take k) < (2 : Int) ^ 63)) := by
+    intro k hm
+    have hs := parseInt0_spec _ (longestPrefix_mem hm)
+    constructor
+    · intro hp hr
+      have := (hs _).mpr ⟨rfl, hr.1, hr.2⟩
+      rw [hp] at this; cases this
+    · intro hr
+      cases hp : parseInt0 ((rest f pos).take k) with
+      | none => rfl
+      | some v =>
+        obtain ⟨h1, h2, h3⟩ := (hs v).mp hp
+        subst h1
+        exact absurd ⟨h2, h3⟩ hr
+  constructor
+  · rintro (⟨he, _⟩ | ⟨_, k, hm, hd, hp⟩)
+    · simp only [Err.mk.injEq, true_and, reduceCtorEq] at he
+    · exact ⟨k, hm, hd, (hnone k hm).mp hp⟩
+  · rintro ⟨k, hm, hd, hr⟩
+    exact Or.inr ⟨rfl, k, hm, hd, (hnone k hm).mpr hr⟩
+
+/-- Float: the lexeme is the longest prefix in the float syntax; value and acceptance are ParseFloat's, for every ParseFloat -/
+theorem c08_float_value (P : Params) (f : File) (pos : Nat) (n : Node) (h : InFile f pos) :
+    Terminal.parse P f .float pos = .node n ↔
+      ∃ k, Lang.longestPrefix Lang.isFloat (rest f pos) = some k ∧ P.floatOk ((rest f pos).take k) = true ∧
+        n = .term (tokOf "FLOAT") (.float ((rest f pos).take k)) pos (pos + k) := by
+  rw [c08_float_node P f pos n h, floatMatch_eq_longest]
+
+/-- TimeDuration: the lexeme is the longest prefix in the duration syntax; for every ParseDuration -/
+theorem c08_duration_value (P : Params) (f : File) (pos : Nat) (n : Node) (h : InFile f pos) :
+    Terminal.parse P f .duration pos = .node n ↔
+      ∃ k, Lang.longestPrefix Lang.isDuration (rest f pos) = some k ∧ P.durErr ((rest f pos).take k) = none ∧
+        n = .term (tokOf "TIME_DURATION") (.dur ((rest f pos).take k)) pos (pos + k) := by
+  rw [c08_duration_node P f pos n h, durationMatch_eq_longest]
+
+/-- Char: `'`, the longest prefix in the char-body syntax, `'`; the value is the code point the body denotes -/
+theorem c08_char_value_node (P : Params) (f : File) (pos : Nat) (n : Node) (h : InFile f pos) :
+    Terminal.parse P f .char pos = .node n ↔
+      ∃ r k v, rest f pos = 39 :: r ∧ Lang.longestPrefix Lang.isCharBody r = some k ∧ (r.drop k).head? = some 39 ∧
+        Lang.charValue (r.take k) = some v ∧ n = .term (tokOf "CHAR") (.rune v) pos (pos + 1 + k + 1) := by
+  rw [c08_char_node P f pos n h]
+  simp only [charMatch_eq_longest]
+
+/-- the body of a back-quoted string: the longest non-empty run of bytes other than the back-quote, verbatim -/
+theorem c08_backquote_body (r : Bytes) :
+    backquoteBody r = match Lang.longestPrefix Lang.isBackquoteBody r with
+      | none => (none, 0)
+      | some k => (some (r.take k), k) := by
+  unfold backquoteBody; rw [backquoteMatch_eq_longest]
+  cases Lang.longestPrefix Lang.isBackquoteBody r <;> rfl
 
 /-- the facts the model takes from the source (regenerated on every run): the five expressions handed to
     ReadRegexp, the body of terminal.Integer (look-ahead for '.', ParseInt base 0 / 64 bit, error instead of
@@ -375,13 +598,11 @@ theorem c08_facts :
     Facts.durationRegexp = "[-+]?(?:[0-9]+(?:\\.[0-9]+)?(?:ns|us|µs|μs|ms|s|m|h))+" ∧
     Facts.backquoteRegexp = "[^`]+" ∧
     Facts.integerBody = "{notFoundErr:=parsley.NotFoundError(\"integervalue\")returnparser.Func(func(ctx*parsley.Context,leftRecCtxdata.IntMap,posparsley.Pos)(parsley.Node,data.IntSet,parsley.Error){tr:=ctx.Reader().(*text.Reader)ifreaderPos,result:=tr.ReadRegexp(pos,\"[-+]?(?:[1-9][0-9]*|0[xX][0-9a-fA-F]+|0[0-7]*)\");result!=nil{if_,isFloat:=tr.ReadRune(readerPos,'.');isFloat{returnnil,data.EmptyIntSet,parsley.NewError(pos,notFoundErr)}intValue,err:=strconv.ParseInt(string(result),0,64)iferr!=nil{returnnil,data.EmptyIntSet,parsley.NewErrorf(pos,\"invalidintegervalue\")}returnNewIntegerNode(schema,intValue,pos,readerPos),data.EmptyIntSet,nil}returnnil,data.EmptyIntSet,parsley.NewError(pos,notFoundErr)})}" ∧
-    Facts.unquoteStringBody = "{i:=0for{ifi>=len(b){returnb,len(b)}ifb[i]=='\\r'||b[i]=='\\n'||b[i]=='\"'{ifi==0{returnnil,0}returnb[0:i],i}ifb[i]=='\\\\'||b[i]>=utf8.RuneSelf{break}i++}str:=string(b[i:])vartailstringvarres=make([]byte,0,i)res=append(res,b[0:i]...)varerrerrorvarchrunefor{ifstr==\"\"{break}ch,_,tail,err=strconv.UnquoteChar(str,'\"')iferr!=nil{break}ifch==utf8.RuneError&&len(str)-len(tail)==1{break}res=append(res,string(ch)...)str=tail}iflen(str)==len(b){returnnil,0}returnres,len(b)-len(str)}" :=
+    Facts.unquoteStringBody = "{i:=0for{ifi>=len(b){returnb,len(b)}ifb[i]=='\\r'||b[i]=='\\n'||b[i]=='\"'{ifi==0{returnnil,0}returnb[0:i],i}ifb[i]=='\\\\'||b[i]>=utf8.RuneSelf{break}i++}str:=string(b[i:])vartailstringvarres=make([]byte,0,i)res=append(res,b[0:i]...)varerrerrorvarchrunefor{ifstr==\"\"{break}ifstr[0]=='\\r'||str[0]=='\\n'{break}ch,_,tail,err=strconv.UnquoteChar(str,'\"')iferr!=nil{break}ifch==utf8.RuneError&&len(str)-len(tail)==1{break}res=append(res,string(ch)...)str=tail}iflen(str)==len(b){returnnil,0}returnres,len(b)-len(str)}" :=
   ⟨rfl, rfl, rfl, rfl, rfl, rfl, rfl⟩
 
 /-! ## non-vacuity: concrete files (base offset 7), evaluated by the kernel -/
 
-def nvP : Params := { floatOk := fun l => l.length < 6, durErr := fun l => if l.length < 4 then none else some [63], regexp := fun _ _ => none }
-def nvF (data : Bytes) : File := { name := "t", data := data, offset := 7 }
 
 example : InFile (nvF [49, 50]) 8 ∧ (Terminal.rune 233 []).WF ∧ (Terminal.word [110, 105, 108] 0 []).WF ∧
     ¬ (Terminal.op [] []).WF ∧ ¬ (Terminal.word [0xC3] 0 []).WF := by
@@ -422,5 +643,37 @@ example : Terminal.parse nvP (nvF [255]) (.rune 0xFFFD []) 7 = .node (.term [0xE
 /-- word boundary: `true` does not match `truex`; at the end of the file it does -/
 example : Terminal.parse nvP (nvF [116,114,117,101,120]) (.bool [116,114,117,101] [102]) 7 = .err ⟨7, .notFound (tokOf "boolean")⟩ := rfl
 example : Terminal.parse nvP (nvF [120,116,114,117,101]) (.bool [116,114,117,101] [102]) 8 = .node (.term (tokOf "BOOL") (.bool true) 8 12) := rfl
+
+
+/-! ## for the parser-core theorems -/
+
+/-- every built-in terminal with documented construction parameters is `TermGood` (Spec/Core.lean): at every
+    position of the file a returned node is a terminal leaf starting at the call position and lying within the
+    file, a returned error is positioned between the call position and the end of the file -/
+theorem c08_termGood (cfg : Cfg) (t : Terminal) (wf : t.WF) (hl : cfg.params.LenOk t) (_hg : cfg.params.GroupOk t) :
+    TermGood cfg t := by
+  intro pos h
+  have hs := c08_spec cfg.params cfg.file t pos h wf hl
+  have hr := spec_ranged cfg.params (rest cfg.file pos) pos t hl
+  have hlen := rest_length cfg.file pos h
+  obtain ⟨h1, h2⟩ := h
+  constructor
+  · intro n hn
+    rw [hs] at hn
+    rw [hn] at hr
+    obtain ⟨⟨e1, e2, e3⟩, tok, v, p, r, rfl⟩ := hr
+    refine ⟨e1, ?_⟩
+    show p ≤ r ∧ r ≤ cfg.hi
+    have e1' : p = pos := e1
+    have e2' : pos ≤ r := e2
+    have e3' : r ≤ pos + (rest cfg.file pos).length := e3
+    unfold Cfg.hi
+    omega
+  · intro e he
+    rw [hs] at he
+    rw [he] at hr
+    obtain ⟨e1, e2⟩ := hr
+    unfold Cfg.hi
+    omega
 
 end PV
